@@ -91,7 +91,8 @@ claim("C15",
 claim("C16",
       "Decides completeness of the tree validator against the AST type definitions: every assignment-bearing field/action enumerated from the types is read in its arm and passed to a closure "
       "reaching is_protected_field; every WHERE-bearing payload is returned by clause_where; every matcher-bearing WhereClause variant is descended into and BELIEF selectors refused; pre-parsed "
-      "trees are validated before use; guards and their tables are wired once; ASSERT desugars to exactly the three clauses and requires by/mode. Value-level spelling of names is not decided.",
+      "trees are validated before use; guards and their tables are wired once; the scan that tells the UPDATE guards the target's kind visits every WHERE clause (this rule found the defect repaired by "
+      "fix 44c862e); ASSERT desugars to exactly the three clauses and requires by/mode. Value-level spelling of names is not decided.",
       "Trusted: rustc MIR; type definitions as seen by rustc; is_protected_field is the protected-field test. Not decided: case/quoting variants of field names, nested path semantics.",
       "table agreement between ADT definitions and match-arm regions (type-directed), def-use flow of field reads into check closures, const-reference who-uses tables", "DESIGN §4 C16")
 
@@ -104,7 +105,8 @@ claim("C13",
 
 claim("C17",
       "Decides the transactional skeleton: lock mode and liveness per command family, reads that cannot write (call-graph reachability, PREVIEW as the one shape-checked dry-run exception), "
-      "shell removal on every refusal after begin (this rule found the defect repaired by fix d4f7213), single assignment of element versions from the value commit computes, and commit step order. "
+      "shell removal on every refusal after begin (this rule found the defect repaired by fix d4f7213), single assignment of element versions from the value commit computes, commit step order, and that every #[unique] column of an element row type has a pre-write identity check over the staged rows "
+      "(found the defect repaired by fix a25879d). "
       "Observable equality over the whole state space and reader isolation under real schedules are not decided; the PREVIEW-under-shared-lock overlap is recorded as an observation.",
       "Trusted: rustc MIR; tokio RwLock; anda_db Collection methods are the only storage primitives. Not decided: nothing-observable-changed over all states, partial commit after a mid-loop storage failure.",
       "call-graph effect reachability, guard-liveness dataflow, Err-edge must-pass-through to the shell removal, who-writes-field tables, CFG ordering", "DESIGN §4 C17")
